@@ -383,6 +383,10 @@ pub struct MStorage {
     pub write_fails: bool,
     pub commit_heads_fails: bool,
     pub last_commit_tag: u8,
+    /// (head id, segment index, last max cut) of the segment the last successful `write` returned
+    pub written: Option<(CmdId, SegmentIndex, MaxCut)>,
+    /// the first head handed to the last `commit_heads`
+    pub committed_head: Option<crate::storage::LocatedAddress>,
     /// `is_ancestor(x, y)` = `anc[x.segment][y.segment]` (segments 0..4): an assumed contract
     /// ("some strict partial order"), NOT the real search — see the C11 units for that.
     pub anc: [[bool; 4]; 4],
@@ -406,6 +410,8 @@ impl MStorage {
             write_fails: kani::any(),
             commit_heads_fails: kani::any(),
             last_commit_tag: 0,
+            written: None,
+            committed_head: None,
             anc: [[false; 4]; 4],
             anc_fails: false,
             found_seg: 0,
@@ -507,6 +513,7 @@ impl Storage for MStorage {
     fn commit_heads(&mut self, h: HeadSet, f: MFI) -> Result<(), StorageError> {
         log(COMMIT_HEADS, h.len() as u8);
         self.last_commit_tag = f.0;
+        self.committed_head = h.as_slice().first().copied();
         if self.commit_heads_fails {
             Err(any_serr())
         } else {
@@ -517,7 +524,17 @@ impl Storage for MStorage {
     }
     fn write(&mut self, _: MPersp) -> Result<MSeg, StorageError> {
         log(WRITE, 0);
-        if self.write_fails { Err(any_serr()) } else { Ok(MSeg::any()) }
+        if self.write_fails {
+            Err(any_serr())
+        } else {
+            // a segment holding one or more commands: first max cut <= last max cut
+            let at = any_loc();
+            let first: u64 = kani::any();
+            kani::assume(first <= at.max_cut.get());
+            let seg = MSeg::holding(fresh_id(), at, kani::any(), kani::any(), first, at.max_cut.get() - first + 1);
+            self.written = Some((seg.head, at.segment, at.max_cut));
+            Ok(seg)
+        }
     }
     fn write_facts(&mut self, _: MPersp) -> Result<MFI, StorageError> {
         log(WRITE_FACTS, 0);
